@@ -405,6 +405,14 @@ for nm in ("lit_lazy_h3", "ref_lazy_h3", "lit_greedy_h3", "ref_greedy_h3"):
       outside="blocks of several tokens are covered only through this step (induction argued, not solver-checked); 4-byte hash width; more than one candidate",
       assumptions=MODEL_ASSUME + ["recording codec Rec", "Vec::push replaced by an equivalent that case-splits on the length (stub_vec_push_any)"])
 
+CONTRACT_ASSUME = ["the matcher behind Box<dyn HashChainHolder> is a contract object at the trait seam: every query gets an arbitrary answer allowed by the matcher's contract (Success inside the text: k05e_match_total_*; hop_match inverts calculate_hops, hop counts >= 1, injective: k02d_hops_inverse_*), the same query in the same dictionary state gets the same answer on both sides; update_hash runs the real DictionaryAddPolicy and logs the inserted positions",
+                   "recording codec Rec", "Vec::push replaced by an equivalent that case-splits on the length (stub_vec_push_any)", "at most 8 distinct matcher queries and 4 hop queries per harness (assumed)", "max_token_count = 127 (concrete)", "Vec::reserve with a concrete allocation size for requests <= 16 elements (stub_vec_reserve_concrete)"]
+for nm, bnd in (("0", "cursor at 2 of a 6-byte text, empty block"), ("1", "cursor at 2 of a 6-byte text, blocks of exactly 1 token"), ("2", "cursor at 1 of a 6-byte text, blocks of exactly 2 tokens"), ("stored", "cursor at 1 of a 6-byte text, stored blocks of 0, 1 and 4 bytes, any padding bits")):
+    H("k02m_contract_mirror_" + nm, "token_predictor", ["C02", "C08", "C05"], tier="experimental", unwind=6, unwindset={"contract_mirror": 8, "query": 10, "calculate_hops": 6, "hop_match": 6, "update_hash": 8, "valid_reference": 14, "same_dictionary_updates": 18, "predict_block": 6, "recreate_block": 7, "try_from_fn_erased": 16}, timeout=3600, mem_gb=30,
+      claim="inductive step of the block/token mirror over the REAL predict_block / recreate_block / predict_token / repredict_reference / commit_token: from any common pre-state (cursor, pending lazy match, token counter) recreate_block rebuilds the block from what predict_block recorded, consumes the corrections exactly, and both sides leave the block in the same state and made identical dictionary insertions",
+      functions=["TokenPredictor::predict_block", "TokenPredictor::recreate_block", "TokenPredictor::predict_token", "TokenPredictor::repredict_reference", "TokenPredictor::commit_token", "DictionaryAddPolicy::update_hash"],
+      bounds=bnd + "; text bytes, token kinds, lengths, distances, irregular-258 flag, parameters (estimator_range), block type and last-block flag symbolic", outside="longer blocks are covered only through this step (induction argued, not solver-checked)", assumptions=CONTRACT_ASSUME)
+
 # ---------------------------------------------------------------- thorough-tier deepenings (same lemmas, larger bounds)
 H("k01e_idat_more_layouts", "idat_parse", ["C01", "C05", "C06"], tier="thorough", unwind=6, unwindset=IDAT_UW, timeout=2400, mem_gb=24,
   claim="parse_idat totality / postconditions / acceptance on further layouts", functions=IDAT_FUNCS[:1], bounds="layouts (12), (3,4)+5 trailing, (5,1), (2,2)+9 trailing; content symbolic", assumptions=IDAT_ASSUME)
